@@ -479,6 +479,20 @@ func main() {
 	add(sec(5), false, "corpus", C(ok), C(ok), C(netE), C(ok))               // initial unknown->healthy: no callback; later one
 	add(sec(5), true, "corpus", due, C(netE), due, C(netE), due, C(netE), due, C(netE), due, C(netE), due, C(netE), due, C(netE), due, C(ok)) // 1,2,4,8,12,12 and the breaker in between
 	add(sec(120), true, "corpus", due, C(netE), due, C(netE), due, C(ok))    // interval > cap: first failure is not capped
+	for _, iv := range []time.Duration{sec(1), sec(2.3), sec(4.9)} { // small intervals: the multiplier cap (12) is visible below the 60 s cap
+		var ops []op
+		for i := 0; i < 8; i++ {
+			ops = append(ops, due, C([]int64{netE, unavail, tmoE}[i%3]))
+		}
+		ops = append(ops, due, C(ok), due, C(notFnd), due, C(ok))
+		add(iv, true, "corpus", ops...)
+		var pops []op
+		pops = append(pops, C(ok))
+		for i := 0; i < 7; i++ {
+			pops = append(pops, pf)
+		}
+		add(iv, false, "corpus", pops...)
+	}
 	add(sec(61), false, "corpus", C(ok), pf, C(ok))                          // interval > cap through the proxy path (capped there)
 	add(sec(5), false, "corpus", C(ok), pf, pf, pf, C(ok))                   // proxy failures back off like failed checks
 	add(sec(5), false, "corpus", C(netE), C(netE), C(netE), C(ok), T(bto-time.Second), C(ok), T(2*time.Second), C(ok)) // breaker short-circuits, then lets a probe through
